@@ -175,7 +175,7 @@ pub fn dump_measure() {
     });
 }
 
-fn tf_roundtrip(name: &str, tf: TransferFunction, lo_bits: u32, hi_bits: u32, step: u32, chunk: usize, tol: (f64, f64)) -> TfResult {
+fn tf_roundtrip(name: &str, tf: TransferFunction, lo_bits: u32, hi_bits: u32, step: u32, chunk: usize, tol: (f64, f64), colour: bool) -> TfResult {
     let hdr = default_header();
     let m = &hdr.metadata;
     let fwd = ColorTransform::new(&enc(TransferFunction::Linear), &enc(tf), &m.opsin_inverse_matrix, &m.tone_mapping, &NullCms);
@@ -197,8 +197,10 @@ fn tf_roundtrip(name: &str, tf: TransferFunction, lo_bits: u32, hi_bits: u32, st
             }
         }
         let n = xs.len();
-        // same sample in all three channels (grey axis): the matrix part is the identity for equal primaries
-        let (mut a, mut b, mut c) = (xs.clone(), xs.clone(), xs.clone());
+        // grey axis (same sample in all three channels), or a saturated colour (g and b derived from the sample): curves
+        // with a luminance-dependent stage (HLG's OOTF) mix the channels, which a grey ramp cannot see
+        let (mut a, mut b, mut c) = if colour { (xs.clone(), xs.iter().map(|&x| (0.25 + 0.6 * x).min(1.0)).collect::<Vec<f32>>(), xs.iter().map(|&x| 0.3 * x).collect::<Vec<f32>>()) } else { (xs.clone(), xs.clone(), xs.clone()) };
+        let (g_in, b_in) = (b.clone(), c.clone());
         let r = guard(|| {
             fwd.run(&mut [&mut a[..], &mut b[..], &mut c[..]]).map_err(|e| e.to_string())?;
             let encd = a.clone();
@@ -233,7 +235,14 @@ fn tf_roundtrip(name: &str, tf: TransferFunction, lo_bits: u32, hi_bits: u32, st
                 res.max_err = err;
                 res.worst = x;
             }
-            let allowed = tol.0 * x.abs() + tol.1;
+            let (gx, bx) = (g_in[i] as f64, b_in[i] as f64);
+            let (err, x_ref) = if colour {
+                // all three channels must come back; the tolerance scales with the largest of them
+                (err.max((b[i] as f64 - gx).abs()).max((c[i] as f64 - bx).abs()), x.abs().max(gx).max(bx))
+            } else {
+                (err, x.abs())
+            };
+            let allowed = tol.0 * x_ref + tol.1;
             if !(err <= allowed) && res.viol.is_none() {
                 res.viol = Some((format!("roundtrip:{name}"), format!("{name}: sample {x:e} (slice index {i} of {n}) encodes to {} and decodes to {} (error {err:e} > {allowed:e} = {:e} x + {:e})", encd[i], a[i], tol.0, tol.1)));
             }
@@ -321,16 +330,21 @@ pub fn main(args: &crate::Args) {
             jobs.push((ti, 0x3c00_0000, 0x3f80_0000, (0x0380_0000 / 200) as u32, len));
         }
         jobs.push((ti, 0, lo, 1 << 18, 4096)); // tiny values incl. 0 and subnormals
+        // saturated colours on a ramp over [1e-4, 1] (every 64th f32 in thorough, every 4096th in quick), three slice lengths
+        for len in [4096usize, 13, 1] {
+            jobs.push((ti, 0x38d1_b717, one, if quick { 4096 } else { 64 }, len | (1 << 20)));
+        }
     }
     if std::env::var("VERIF_C19_MEASURE").is_ok() {
         // single-threaded measuring run (thread-local statistics)
         for &(ti, a, b, st, chunk) in &jobs {
-            let _ = tf_roundtrip(tf_list[ti].0, tf_list[ti].1, a, b, st, chunk, (1.0, 1.0));
+            let _ = tf_roundtrip(tf_list[ti].0, tf_list[ti].1, a, b, st, chunk.min(1 << 20), (1.0, 1.0), false);
         }
         dump_measure();
         std::process::exit(0);
     }
-    let tr = par_map(&jobs, n_threads(), |_, &(ti, a, b, st, chunk)| tf_roundtrip(tf_list[ti].0, tf_list[ti].1, a, b, st, chunk, tf_list[ti].2));
+    // chunk values above 2^20 mark the colour jobs
+    let tr = par_map(&jobs, n_threads(), |_, &(ti, a, b, st, chunk)| tf_roundtrip(tf_list[ti].0, tf_list[ti].1, a, b, st, chunk & 0xfffff, tf_list[ti].2, chunk >> 20 != 0));
     let mut samples = 0u64;
     let mut max_err = vec![0f64; tf_list.len()];
     let mut worst = vec![0f64; tf_list.len()];
@@ -374,7 +388,7 @@ pub fn main(args: &crate::Args) {
             }
         }
     }
-    rep.rule = format!("(a) FULL PRODUCT of enumerated encodings: {{RGB, Grey}} x 10 white points (D65, E, DCI, 5 custom, D65 and E moved by 5e-4) x 16 primaries (sRGB, 2100, P3, 4 custom real gamuts, 9 sets equal to a named set in two primaries only) x 14 transfer functions (709, linear, sRGB, PQ, DCI, HLG, 8 gammas up to 1.0) x 4 intents = {} encodings: synthesise ICC, parse back, compare as the statement prescribes (1e-4 on xy, 1e-4 relative on gamma); (b) for sRGB, BT.709, DCI, gamma 2.2, PQ, HLG: linear -> curve -> linear through ColorTransform on {} f32 bit pattern in [4.7e-10, 1] plus a lattice below, round-trip error within per-curve tolerances rel*x + floor fixed from the per-decade error of the unchanged tree (sRGB 2e-3 x, BT.709 / DCI / gamma 4e-5 x, HLG 6e-5 x, PQ 2e-5 x + 1e-4) and encode monotone, and the same on every slice length 1..67; (c) identity conversion for every tf x primaries leaves samples bit-identical.", encs.len(), if quick { "every 4096th" } else { "EVERY" });
+    rep.rule = format!("(a) FULL PRODUCT of enumerated encodings: {{RGB, Grey}} x 10 white points (D65, E, DCI, 5 custom, D65 and E moved by 5e-4) x 16 primaries (sRGB, 2100, P3, 4 custom real gamuts, 9 sets equal to a named set in two primaries only) x 14 transfer functions (709, linear, sRGB, PQ, DCI, HLG, 8 gammas up to 1.0) x 4 intents = {} encodings: synthesise ICC, parse back, compare as the statement prescribes (1e-4 on xy, 1e-4 relative on gamma); (b) for sRGB, BT.709, DCI, gamma 2.2, PQ, HLG: linear -> curve -> linear through ColorTransform on {} f32 bit pattern in [4.7e-10, 1] plus a lattice below, round-trip error within per-curve tolerances rel*x + floor fixed from the per-decade error of the unchanged tree (sRGB 2e-3 x, BT.709 / DCI / gamma 4e-5 x, HLG 6e-5 x, PQ 2e-5 x + 1e-4) and encode monotone, and the same on every slice length 1..67 and on ramps of saturated colours (r, 0.25 + 0.6 r, 0.3 r); (c) identity conversion for every tf x primaries leaves samples bit-identical.", encs.len(), if quick { "every 4096th" } else { "EVERY" });
     rep.sample(json!({"encoding": encs[encs.len() / 2].0}));
     rep.sample(json!({"tf": "pq", "range_bits": [lo, one], "step": step}));
     rep.extra.insert("tf_samples".into(), json!(samples));
